@@ -127,10 +127,10 @@ u16 u16NegInv(register u16 w)
 {
 	register u16 ret = w;
 	ASSERT(w & 1);
-	ret = ret * (w * ret + 2);
-	ret = ret * (w * ret + 2);
-	ret = ret * (w * ret + 2);
-	ret = ret * (w * ret + 2);
+	ret = (u16)((u32)ret * ((u32)w * ret + 2));
+	ret = (u16)((u32)ret * ((u32)w * ret + 2));
+	ret = (u16)((u32)ret * ((u32)w * ret + 2));
+	ret = (u16)((u32)ret * ((u32)w * ret + 2));
 	w = 0;
 	return ret;
 }
